@@ -14,7 +14,8 @@ import (
 // Counters, caches and "is it stuck?" heuristics only show themselves at this length.
 
 var longRunKinds = []string{"mvn-full", "mvp-full", "mvn-ffff-less-1", "mvn-8bit-index", "mvp-same-bank", "bra-self", "jmp-self", "jml-self", "brl-self", "bne-self",
-	"inx-loop", "dec-a-loop", "dey-8bit-loop", "nop-slide-wraps-bank", "push-loop-stack-wraps", "jsr-self-recursion", "jsl-self-recursion", "jsr-rts-deep-then-unwind"}
+	"inx-loop", "dec-a-loop", "dey-8bit-loop", "nop-slide-wraps-bank", "push-loop-stack-wraps", "jsr-self-recursion", "jsl-self-recursion", "jsr-rts-deep-then-unwind",
+	"io-space-poke-then-peek", "io-space-poke-peek-each", "io-space-poke-twice-then-peek"}
 
 // longRunCase builds one long run: start state, image, and the number of steps to drive.
 func longRunCase(g *vf.Rng, kind string) (ref.State, *mem.Image, int) {
@@ -126,6 +127,80 @@ func longRunCase(g *vf.Rng, kind string) (ref.State, *mem.Image, int) {
 		put(0x20, byte(f), byte(f>>8), 0xDB)
 		put(0xCA, 0xF0, 0x03, 0x20, byte(f), byte(f>>8), 0x60)
 		steps = int(s.X)*5 + 16
+	case "io-space-poke-then-peek", "io-space-poke-peek-each", "io-space-poke-twice-then-peek":
+		// What console software does all day: stores to and loads from the I/O space $2000-$5FFF of a
+		// system bank (PPU, APU, WRAM port, joypads, CPU registers incl. multiplier/divider, DMA, and
+		// what cartridge chips put there). Every address of the space is written (ascending or
+		// descending, bytes or words, through the data bank or a long address), then every address is
+		// read. To the CPU core these are plain memory accesses.
+		s.E = false
+		s.P &^= 0x10 // 16-bit index
+		s.K = byte(0x40 + g.Intn(0x3E))
+		s.PC = uint16(0x0200 + g.Intn(0xE000))
+		k = uint32(s.K) << 16
+		at = s.PC
+		bank := byte(g.Intn(0x40))
+		if g.Bool() {
+			bank |= 0x80
+		}
+		long := g.Bool()
+		if !long {
+			s.DBR = bank
+		}
+		a16 := s.P&0x20 == 0
+		down := g.Bool()
+		first, last, step := uint16(0), uint16(0x4000), byte(0xE8) // INX
+		if down {
+			first, last, step = 0x3FFF, 0xFFFF, 0xCA // DEX
+		}
+		salt := g.U8()
+		store := func() {
+			if long {
+				put(0x9F, 0x00, 0x20, bank) // STA $bb2000,X
+			} else {
+				put(0x9D, 0x00, 0x20) // STA $2000,X
+			}
+		}
+		load := func() {
+			if long {
+				put(0xBF, 0x00, 0x20, bank) // LDA $bb2000,X
+			} else {
+				put(0xBD, 0x00, 0x20) // LDA $2000,X
+			}
+		}
+		loop := func(body func()) {
+			put(0xA2, byte(first), byte(first>>8)) // LDX #first
+			top := at
+			body()
+			put(step)
+			put(0xE0, byte(last), byte(last>>8)) // CPX #last
+			put(0xD0, byte(int(top)-int(at)-2))  // BNE top
+		}
+		value := func() {
+			put(0x8A) // TXA
+			if a16 {
+				put(0x49, salt, salt^0x5A) // EOR #
+			} else {
+				put(0x49, salt)
+			}
+		}
+		perLoop := 16384
+		switch kind {
+		case "io-space-poke-then-peek":
+			loop(func() { value(); store() })
+			loop(load)
+			steps = perLoop*6 + perLoop*4 + 8
+		case "io-space-poke-peek-each":
+			loop(func() { value(); store(); load() })
+			steps = perLoop*7 + 8
+		default:
+			loop(func() { value(); store() })
+			salt ^= 0xA7
+			loop(func() { value(); put(0x1A); store() }) // INC A : other values the second time
+			loop(load)
+			steps = perLoop*6 + perLoop*7 + perLoop*4 + 10
+		}
+		put(0xDB)
 	case "push-loop-stack-wraps": // PHA ; BRA -3 : the stack pointer goes all the way round bank 0
 		s.E = false
 		put(0x48, 0x80, 0xFD)
